@@ -733,6 +733,12 @@ func (e *Enc) appendBuiltin(st *State, cc *ssa.CallCommon, args []*Val, rt types
 
 func (e *Enc) special(fr *Frame, st *State, full string, callee *ssa.Function, args []*Val, rt types.Type, site ssa.Instruction) (*Val, bool) {
 	switch full {
+	case "math.Ceil":
+		r := e.s.Fresh("fceil", "Int")
+		if f, ok := e.flt[args[0].term()]; ok && f.kind == "quo" {
+			e.flt[r] = fltRec{kind: "ceilquo", a: f.a, b: f.b}
+		}
+		return intVal(rt, r), true
 	case "errors.Is", "github.com/cockroachdb/errors.Is":
 		a, b := args[0], args[1]
 		r := e.s.FreshDef("errIs", "Bool", fmt.Sprintf("(and (not (= %s 0)) (or (and (= %s %s) (= %s %s)) (and (not (= %s 0)) (= (errroot %s %s) %s))))",
@@ -1041,7 +1047,7 @@ func (e *Enc) callWriteSet(fr *Frame, li *loopInfo, st *State, cc *ssa.CallCommo
 		return
 	case strings.HasPrefix(full, "(encoding/binary.bigEndian).Uint") || strings.HasPrefix(full, "(encoding/binary.littleEndian).Uint"):
 		return
-	case full == "errors.Is" || full == "github.com/cockroachdb/errors.Is" || full == "fmt.Sprintf" || full == "fmt.Errorf" || full == "errors.New":
+	case full == "math.Ceil" || full == "errors.Is" || full == "github.com/cockroachdb/errors.Is" || full == "fmt.Sprintf" || full == "fmt.Errorf" || full == "errors.New":
 		return
 	case strings.HasPrefix(full, "github.com/cockroachdb/errors."):
 		return
